@@ -73,6 +73,13 @@ def purges_keep_other_commands(ctx, P, pre):
                         elif not r[0]:
                             bad.append("commands of another kind than the purged one can be dropped: some path that does not match the purged "
                                        "variant answers something else than the constant true")
+                        elif len(r) > 3 and not r[3]:
+                            ctx.ob(pre + ".purge-drops-the-matching", "%s|retransmissions.retain#%d" % (f.name, k), False, f.loc(b),
+                                   "the comparison is the wrong way round: an entry whose name equals the search's name is kept and the others "
+                                   "are dropped (retain keeps what the predicate answers true for)")
+                        else:
+                            ctx.ob(pre + ".purge-drops-the-matching", "%s|retransmissions.retain#%d" % (f.name, k), True, f.loc(b),
+                                   "the predicate answers false for the entries whose name equals the search's name, true for the others")
                     ctx.ob(pre + ".purge-keeps-other-commands", "%s|retransmissions.retain#%d" % (f.name, k), not bad, f.loc(b),
                            "the purge answers `true` for every command of another kind" if not bad else "; ".join(sorted(set(bad)))[:400])
     ctx.floor(pre + ".purge-keeps-other-commands", n, 3, "retain calls on the rerun queue")
